@@ -546,8 +546,7 @@ class Oracle:
         for n, (r, evals) in enumerate(passes):
             last = n == len(passes) - 1
             if self.registry_veto(r, evals):
-                self.full = True                    # nobody clears the all-ones bitmap
-                self.clean = False
+                self.full = True                    # nobody clears the all-ones bitmap (the history stays `clean` in the protocol sense)
                 self.taint = {k: "F71" for k in self.filts}
                 continue
             if not r:
@@ -579,7 +578,7 @@ class Oracle:
                 par = self.filts[k]["parent"]
                 v = self.view(self.chain_of(k))
                 cur = self.spans[v]["cs"] if v is not None else None
-                if f_eval(self.filts[k]["f"], m, cur) != r_k and self.clean:
+                if f_eval(self.filts[k]["f"], m, cur) != r_k and self.clean and not self.full:
                     self.bad("filter-eval", "op %d: filter #%d answered %s on callsite %d, direct evaluation gives %s" % (i, k, r_k, cs, not r_k))
         sid = None
         if code == "S":
@@ -796,21 +795,25 @@ REQUIRES = ("From Coq Require Import NArith List Bool.\nFrom TV Require Import S
             "Import ListNotations.\nLocal Open Scope N_scope.")
 
 
-def run(ctx):
+def run(ctx, only=None, release=None):
     rep = Report(ctx)
-    rep.rule = ("a case = (stack, history); non-trivial = the stack has >= 2 per-layer-filtered recorders that disagree on >= 1 emission of the "
-                "history AND >= 1 callsite whose cached interest is `always` is dispatched twice; distinct = distinct (stack, history) JSON")
+    rep.rule = ("a case = (stack, history) or (two stacks, interleaved history); non-trivial = a stack of the case has >= 2 per-layer-filtered recorders that "
+                "disagree on >= 1 emission of the history AND >= 1 callsite whose cached interest is `always` is dispatched twice on it; "
+                "distinct = distinct case JSON")
     rep.trusted_base = [
         "Coq 8.16.1 kernel + vm_compute", "harness h_stack.rs (recording leaf, logging filter wrapper, transparent spy collector; one process per case)",
         "Python oracle in driver/props/c07.py (direct evaluation of the filters; bookkeeping of the span stack)",
         "driver/props/c07.py printers (case -> JSON for the harness and -> Gallina term for the model)"]
     rep.assumptions = [
         "the global max level (LevelFilter::current(), computed from max_level_hint: C08) is read from the implementation and given to the model as a parameter; "
-        "the theorem assumes it is sound (nothing above it is accepted by anybody)",
-        "class of stacks: no global filter and no vetoing layer inside a Filtered, no global filter inside a Vec (F8 / documented: Filtered wraps recording layers); "
-        "fewer than 64 per-layer filters; reload around a Filtered excluded (documented restriction)",
+        "the theorems assume it is sound (HintSound: nothing above it is accepted by anybody)",
+        "class of stacks (Spec.shape / WF): every Filtered wraps recording layers only (no global filter, no vetoing layer inside a Filtered: documented use); "
+        "at most 63 per-layer filters (64 is finding F71); reload around a Filtered excluded (documented restriction); anything else - global filters and "
+        "vetoing layers anywhere outside a Filtered, also inside Vec; empty Vec / None; any nesting - is inside",
         "user closures are pure; Targets directives use the three pool targets, none a prefix of another (directive matching is C11)",
-        "one dispatcher per process; span handles are used only while alive (tracing's Span API guarantees it)"]
+        "one dispatcher per thread (two-stack cases: two threads, one stack each, operations handed out one at a time by a third thread); "
+        "span handles are used only while alive (tracing's Span API guarantees it); span ids are never reused in the model",
+        "follow-up theorems (enter / exit / record) are stated for spans still alive in the registry after the operation (reference counting is C05)"]
     # ---- leg B1: translator (which type Layered::new compares with Registry: finding F81 / its repair)
     text, unrec = stack_tr.main(ctx.repo, None)
     gen_if_changed(os.path.join(vlib.COQ, "gen", "Gen_stack.v"), text)
@@ -820,12 +823,15 @@ def run(ctx):
     # ---- cases
     rng = ctx.rng
     n = 660 if not ctx.thorough() else 4400
-    cases = corpus_cases()
-    kinds = ["clean"] * 6 + ["agree"] * 7 + ["unclean"] * 4 + ["flat"] * 3 + ["outside"] * 2
-    for i in range(n):
-        cases.append(gen_case(rng, i, kinds[i % len(kinds)]))
-    for i in range(n // 6):
-        cases.append(gen_two(rng, n + i))
+    if only is not None:
+        cases = only
+    else:
+        cases = corpus_cases()
+        kinds = ["clean"] * 6 + ["agree"] * 7 + ["unclean"] * 4 + ["flat"] * 3 + ["outside"] * 2
+        for i in range(n):
+            cases.append(gen_case(rng, i, kinds[i % len(kinds)]))
+        for i in range(n // 6):
+            cases.append(gen_two(rng, n + i))
     for c in cases:
         rep.count("kind:" + c["kind"])
         rep.count("depth:%d" % len(c["stack"]))
@@ -835,6 +841,8 @@ def run(ctx):
         for op in c["ops"]:
             rep.count("op:" + op[0])
     builds = [False] + ([True] if ctx.thorough() else [])
+    if release is not None:
+        builds = [release]
     model = None
     for rel in builds:
         prof = "release" if rel else "debug"
@@ -918,7 +926,7 @@ def run(ctx):
                 porc = orcs[case["ops"][impl["panic"]["op"]][2]] if two else orcs[0]
                 rep.violation("panic at op %d: %s [%s]" % (impl["panic"]["op"], impl["panic"]["panic"][:200], prof),
                               {"case": case, "profile": prof, "panic": impl["panic"]},
-                              finding=("F71" if porc.full else "F3") if not porc.clean else None)
+                              finding="F71" if porc.full else ("F3" if not porc.clean else None))
             for t, orc in enumerate(orcs):
                 if orc.in_class:
                     for k, v in orc.stats.items():
@@ -938,4 +946,31 @@ def run(ctx):
     rep.exhaustive = False
     rep.samples = [{"stack": c["stack"], "ops": c["ops"][:8]} for c in cases[:3]] + \
                   [{"stack": c["stack"], "stack2": c["stack2"], "ops": c["ops"][:8]} for c in cases if "stack2" in c][:1]
+    return rep
+
+
+def replay(ctx, payload):
+    """./check C07 --replay FILE: re-run the one recorded case (same build profile) against the real crates, the model and the oracle"""
+    c = payload.get("case") or {}
+    if "first_disagreements" in payload:
+        try:
+            c = payload["first_disagreements"][0][0]
+        except (IndexError, KeyError, TypeError):
+            c = {}
+    prof = c.get("profile", "debug")
+    while isinstance(c.get("case"), dict):
+        c = c["case"]
+    if "stack" not in c or "ops" not in c:
+        rep = Report(ctx)
+        rep.rule = "replay"
+        rep.tie("replay:payload", False, "no recorded case in this file")
+        return rep
+    case = {"id": "replay", "kind": c.get("kind", "replay"), "stack": c["stack"], "ops": c["ops"]}
+    assign_tags(case["stack"])
+    if "stack2" in c:
+        case["stack2"] = c["stack2"]
+        assign_tags(case["stack2"])
+    rep = run(ctx, only=[case], release=(prof == "release"))
+    rep.rule = "replay of one recorded case (%s build)" % prof
+    rep.nontrivial.add("replay")
     return rep
